@@ -348,11 +348,10 @@ def _build_qr_gate_sequence(gate, n_qubits):
 
 def _get_row_col(matrix_rotation, n_qubits):
     a, b, c, d = 1.0, 0.0, 0.0, 1.0
+    col, row = None, None
     for row_idx in range(2 ** n_qubits):
         for col_idx in range(row_idx):
-            if matrix_rotation[row_idx][col_idx] != 0 and np.not_equal(
-                matrix_rotation[row_idx][col_idx], 1
-            ):
+            if matrix_rotation[row_idx][col_idx] != 0:
 
                 a = matrix_rotation[col_idx][col_idx]
                 b = matrix_rotation[row_idx][col_idx]
@@ -360,6 +359,22 @@ def _get_row_col(matrix_rotation, n_qubits):
                 d = matrix_rotation[row_idx][row_idx]
                 col = col_idx
                 row = row_idx
+
+    if col is None:
+        # Diagonal matrix: the entry to eliminate was already zero, or this is
+        # the remainder of the elimination. It acts on the (at most two)
+        # basis states whose diagonal entry differs from one.
+        indices = [
+            idx for idx in range(2 ** n_qubits) if matrix_rotation[idx][idx] != 1
+        ]
+        col = indices[0] if indices else 0
+        if len(indices) > 1:
+            row = indices[1]
+        else:
+            row = col + 1 if col + 1 < 2 ** n_qubits else col - 1
+        col, row = min(col, row), max(col, row)
+        a = matrix_rotation[col][col]
+        d = matrix_rotation[row][row]
 
     col_qubits, n_diff, row_qubits = _row_and_col_qubits(col, n_qubits, row)
     return np.array([[a, c], [b, d]]), row_qubits, col_qubits, n_diff
